@@ -22,17 +22,19 @@ namespace Ytk.Props
 
 /-! ## utils.Unflatten -/
 
+/-- `current[c].(map[string]interface{})` if that assertion holds, else a fresh map -/
+def subOf (m : AMap Val) (c : String) : AMap Val :=
+  match AMap.get? m c with
+  | some (.obj x) => x
+  | _ => []
+
 /-- the body of Unflatten's loop for one key: descend through `pc[0:len-1]`, reusing a nested
     map where there is one and replacing anything else by a fresh map, then assign the last
     component. -/
 def insertAt (m : AMap Val) : List String → Val → AMap Val
   | [], _ => m
   | [last], v => AMap.insert m last v
-  | c :: rest, v =>
-    let sub := match AMap.get? m c with
-      | some (.obj x) => x
-      | _ => []
-    AMap.insert m c (.obj (insertAt sub rest v))
+  | c :: rest, v => AMap.insert m c (.obj (insertAt (subOf m c) rest v))
 
 /-- Unflatten with the keys visited in the order of the list -/
 def unflattenList (l : List (String × Val)) : AMap Val :=
@@ -40,6 +42,9 @@ def unflattenList (l : List (String × Val)) : AMap Val :=
 
 /-- utils.Unflatten: keys visited in sorted order (the order of the `AMap`) -/
 def unflatten (kv : AMap Val) : AMap Val := unflattenList kv
+
+/-- the flat map with its scalar values wrapped as plain values -/
+def toV (kv : AMap Scalar) : AMap Val := kv.map fun p => (p.1, Val.sc p.2)
 
 /-- Unflatten where the keys are visited in an arbitrary order (the code before the D21 fix) -/
 def UnflattenRel (kv : AMap Val) (out : AMap Val) : Prop :=
